@@ -49,17 +49,17 @@ def optNat? (s : String) : Option (Option Nat) :=
   if s = "-" then some none else s.toNat?.map some
 
 /-- Result of one op: new value and whether the honest witness still satisfies everything;
-`none` = malformed request. -/
+`none` = malformed request. The monad carries the foreign-level trace (`Ev`). -/
 def stepOp (c : ChipCfg) (st : PSt) (name : String) (a : List String) :
-    Option (Except Stop (Val × Bool)) :=
-  let ok (v : Val) : Option (Except Stop (Val × Bool)) := some (.ok (v, true))
-  let lift (r : Except Stop FVar) : Option (Except Stop (Val × Bool)) :=
-    some (r.map (fun x => (Val.fe x, true)))
+    Option (M (Val × Bool)) :=
+  let ok (v : Val) : Option (M (Val × Bool)) := some (pure (v, true))
+  let lift (r : M FVar) : Option (M (Val × Bool)) :=
+    some (r >>= fun x => pure (Val.fe x, true))
   let kc (s : String) : Option Int := (parseInt? s).map (· % c.m)
   match name, a with
-  | "in", [v] => do let v ← kc v; ok (.fe (c.assign v))
+  | "in", [v] => do let v ← kc v; lift (c.assign v)
   | "fix", [v] => do let v ← kc v; ok (.fe (c.assignFixed v))
-  | "inpi", [v] => do let v ← kc v; ok (.fe (c.assign v))
+  | "inpi", [v] => do let v ← kc v; lift (c.assignPublic v)
   | "inbit", [b] => ok (.bit (b = "1"))
   | "inbits", [b] =>
     ok (.bits ((b.toList.filter (fun ch => ch = '0' ∨ ch = '1')).map (· = '1')))
@@ -99,7 +99,7 @@ def stepOp (c : ChipCfg) (st : PSt) (name : String) (a : List String) :
       | [kk, v] => do let kk ← kc kk; let x ← getFe st v; pure (kk, x)
       | _ => none)
     lift (c.linearCombination ts k)
-  | "iszero", [x] => do let x ← getFe st x; some ((c.isZero x).map (fun b => (.bit b, true)))
+  | "iszero", [x] => do let x ← getFe st x; some ((c.isZero x) >>= fun b => pure (.bit b, true))
   | "iseq", [x, y] => do
     let x ← getFe st x; let y ← getFe st y
     some (do let d ← c.sub x y; let b ← c.isZero d; pure (.bit b, true))
@@ -111,13 +111,19 @@ def stepOp (c : ChipCfg) (st : PSt) (name : String) (a : List String) :
     some (do let d ← c.addConstant x (-k); let b ← c.isZero d; pure (.bit b, true))
   | "asserteq", [x, y] => do
     let x ← getFe st x; let y ← getFe st y
-    some (do let x ← c.normalize x; let y ← c.normalize y; pure (.unit, x.limbs == y.limbs))
+    some (do
+      let x ← c.normalize x; let y ← c.normalize y
+      emit (.eq (x.src.zip y.src))
+      pure (.unit, x.limbs == y.limbs))
   | "assertneq", [x, y] => do
     let x ← getFe st x; let y ← getFe st y
     some (do let d ← c.sub x y; let b ← c.isZero d; pure (.unit, !b))
   | "asserteqc", [x, k] => do
     let x ← getFe st x; let k ← kc k
-    some (do let x ← c.normalize x; pure (.unit, x.limbs == c.limbsOf k))
+    some (do
+      let x ← c.normalize x
+      emit (.eq (x.src.zip ((c.limbsOf k).map CellName.k)))
+      pure (.unit, x.limbs == c.limbsOf k))
   | "assertneqc", [x, k] => do
     let x ← getFe st x; let k ← kc k
     some (do let d ← c.addConstant x (-k); let b ← c.isZero d; pure (.unit, !b))
@@ -129,15 +135,15 @@ def stepOp (c : ChipCfg) (st : PSt) (name : String) (a : List String) :
     ok (.fe (ChipCfg.select b x y))
   | "bits", [x, n, canon] => do
     let x ← getFe st x; let n ← optNat? n
-    some ((c.toLeBits x n (canon = "1")).map (fun r => (.bits r.1, r.2)))
+    some ((c.toLeBits x n (canon = "1")) >>= fun r => pure (.bits r.1, r.2))
   | "bytes", [x, n] => do
     let x ← getFe st x; let n ← optNat? n
     let nb := n.getD ((c.numBits + 7) / 8)
-    some ((c.toLeBits x (some (nb * 8)) true).map (fun r =>
-      (.bytes ((ChipCfg.chunksOf (r.1.length + 1) 8 r.1).map ChipCfg.bitsToByte), r.2)))
+    some ((c.toLeBits x (some (nb * 8)) true) >>= fun r =>
+      pure (.bytes ((ChipCfg.chunksOf (r.1.length + 1) 8 r.1).map ChipCfg.bitsToByte), r.2))
   | "chunks", [x, w, n] => do
     let x ← getFe st x; let w ← w.toNat?; let n ← optNat? n
-    some ((c.toLeChunks x w n).map (fun r => (.nats r.1, r.2)))
+    some ((c.toLeChunks x w n) >>= fun r => pure (.nats r.1, r.2))
   | "frombits", [v] => do
     let i ← v.toNat?
     match st.vals[i]? with
@@ -161,23 +167,33 @@ def stepOp (c : ChipCfg) (st : PSt) (name : String) (a : List String) :
   | "bit2f", [b] => do let b ← getBit st b; ok (.fe (c.fromLimb (if b then 1 else 0)))
   | "pi", [x] => do
     let x ← getFe st x
-    some (do let _ ← c.normalize x; pure (.unit, true))
+    some (do let x ← c.normalize x; emit (.pub x.src); pure (.unit, true))
   | _, _ => none
 
-/-- Run a program; the answer lists every op's output, then the verdict of the honest witness. -/
-def runProg (c : ChipCfg) (ops : List (List String)) : String := Id.run do
+/-- Run a program; the answer lists every op's output (`trace = false`) or every op's foreign-level
+events (`trace = true`), then the verdict of the honest witness. -/
+def runProg (c : ChipCfg) (ops : List (List String)) (trace : Bool := false) : String := Id.run do
   let mut st : PSt := {}
+  let mut ts : TSt := {}
+  let mut evs : Array String := #[]
   let mut stop : Option String := none
   for o in ops do
     match o with
     | name :: args =>
       match stepOp c st name args with
       | none => return "bad-op"
-      | some (.error .err) => stop := some "E"; break
-      | some (.error .panic) => stop := some "P"; break
-      | some (.ok (v, ok)) =>
-        st := { st with vals := st.vals.push v, sat := st.sat && ok, outs := st.outs.push (fmtVal v) }
+      | some m =>
+        match m.run { ts with ev := #[] } with
+        | .error .err => stop := some "E"; break
+        | .error .panic => stop := some "P"; break
+        | .ok ((v, ok), ts') =>
+          ts := ts'
+          evs := evs.push (if ts'.ev.isEmpty then "-" else " ".intercalate (ts'.ev.toList.map Ev.fmt))
+          st := { st with vals := st.vals.push v, sat := st.sat && ok, outs := st.outs.push (fmtVal v) }
     | [] => return "bad-op"
+  if trace then
+    -- after the last operation nothing is emitted by the chip (final `-`)
+    return " | ".intercalate (evs.toList ++ [match stop with | some s => s | none => "-"])
   let outs := st.outs.toList ++ (match stop with | some s => [s] | none => [])
   let verdict := match stop with
     | some _ => "stopped"
@@ -323,9 +339,36 @@ def runBig (ops : List (List String)) : String := Id.run do
     | none => if sat then "sat" else "unsat"
   return " | ".intercalate outl ++ " => " ++ verdict
 
+/-- `bigrc ; prog`: for every executed `in` (assign_biguint → `assign_bounded`), the bit length
+of the range check of every limb (`assign_lower_than_fixed(limb, 2^bound)`): the size bounds
+`boundedSb`. -/
+def runBigRc (ops : List (List String)) : String := Id.run do
+  let mut vals : Array BVal := #[]
+  let mut toks : Array String := #[]
+  let mut i := 0
+  for o in ops do
+    match o with
+    | name :: args =>
+      match stepBig vals name args with
+      | none => return "bad-op"
+      | some (.error _) => break
+      | some (.ok (v, _)) =>
+        vals := vals.push v
+        match name, args with
+        | "in", [_, w] =>
+          match w.toNat? with
+          | some w => toks := toks.push s!"{i}:{fmtNatList (Big.boundedSb bigLb w)}"
+          | none => return "bad-op"
+        | _, _ => pure ()
+    | [] => return "bad-op"
+    i := i + 1
+  return if toks.isEmpty then "-" else " | ".intercalate toks.toList
+
 def answerBig (line : String) : String :=
   match (line.trimAscii.toString.splitOn " ; ") with
-  | hd :: rest => if hd.trimAscii.toString = "big" then runBig (rest.map words) else "bad-op"
+  | hd :: rest =>
+    if hd.trimAscii.toString = "big" then runBig (rest.map words)
+    else if hd.trimAscii.toString = "bigrc" then runBigRc (rest.map words) else "bad-op"
   | [] => "bad-op"
 
 def answerProg (line : String) : String :=
@@ -335,6 +378,10 @@ def answerProg (line : String) : String :=
     | ["fp", name] =>
       match (findSet name).bind ChipCfg.ofParams with
       | some c => runProg c (rest.map words)
+      | none => "bad-op"
+    | ["fpt", name] =>
+      match (findSet name).bind ChipCfg.ofParams with
+      | some c => runProg c (rest.map words) true
       | none => "bad-op"
     | _ => "bad-op"
   | [] => "bad-op"
@@ -355,8 +402,8 @@ def fmtRow (u : Int) (vjs : List Int) (ok : Bool) (cells rc : Nat) : String :=
   s!"{u} {fmtInts vjs} {if ok then "ok" else "BAD"} cells={cells} rc={rc}"
 
 def answer (line : String) : String :=
-  if line.startsWith "fp " then answerProg line else
-  if line.startsWith "big " then answerBig line else
+  if line.startsWith "fp " ∨ line.startsWith "fpt " then answerProg line else
+  if line.startsWith "big " ∨ line.startsWith "bigrc " then answerBig line else
   match words line with
   | ["auxb", p, m, moduli, emin, emax, mjb] =>
     match parseInt? p, parseInt? m, parseIntList? moduli, parseInt? emin, parseInt? emax, parsePairs? mjb with
